@@ -317,3 +317,152 @@ class Neighbors(_Generic):
             return [self.member(n)]
 
         generic_body(interp, st, env, bind, getattr(ctx(), "loop_invariants", {}).get(st.lineno))
+
+
+# ---------------------------------------------------------------------------------------------------------------------
+# symbolic sequences with order-preserving filtering (results of radius queries)
+
+
+class SeqArr(_Generic):
+    """1-D array of symbolic length: elem(k) for 0 <= k < n.  `pos(k)` maps its positions to positions of the ROOT sequence it
+    was filtered from (identity for a root)."""
+
+    def __init__(self, n, elem, root=None, pos=None):
+        self.n, self.elem = n, elem
+        self.root = root or self
+        self.pos = pos or (lambda k: k)
+
+    @property
+    def size(self):
+        return self.n
+
+    def __sym_len__(self):
+        return self.n
+
+    @property
+    def shape(self):
+        return (self.n,)
+
+    def __getitem__(self, k):
+        if isinstance(k, SeqArr) and getattr(k, "is_mask", False):
+            return filter_seq(self, k)
+        if isinstance(k, (int, SV)):
+            kt = to_z3(k)
+            ctx().oblige("safe.index-in-range", z3.And(kt >= 0, kt < to_z3(self.n)), kind="safe", detail="element of a (possibly empty) query result")
+            return self.elem(kt)
+        raise Unsupported("sequence index")
+
+    def _cmp(self, o, f):
+        e = self.elem
+        if isinstance(o, SeqArr):
+            if o.root is not self.root:
+                raise Unsupported("comparison of sequences from different queries")
+            oe = o.elem
+            m = SeqArr(self.n, lambda k: f(e(k), oe(k)), self.root, self.pos)
+        else:
+            m = SeqArr(self.n, lambda k: f(e(k), o), self.root, self.pos)
+        m.is_mask = True
+        return m
+
+    def __eq__(self, o): return self._cmp(o, lambda a, b: a == b)
+    def __ne__(self, o): return self._cmp(o, lambda a, b: a != b)
+    def __gt__(self, o): return self._cmp(o, lambda a, b: a > b)
+    def __ge__(self, o): return self._cmp(o, lambda a, b: a >= b)
+    def __lt__(self, o): return self._cmp(o, lambda a, b: a < b)
+    def __le__(self, o): return self._cmp(o, lambda a, b: a <= b)
+    __hash__ = None
+
+
+def filter_seq(seq, mask):
+    """seq[mask]: the elements at the positions where mask holds, in order.  Assumed numpy contract, stated with a strictly
+    increasing position map sigma: [0,n') -> [0,n): mask(sigma(k)), every position with mask is hit, n' = 0 iff no position has mask."""
+    cx = ctx()
+    if mask.root is not seq.root:
+        raise Unsupported("mask from another sequence")
+    memo = cx.__dict__.setdefault("_filters", {})
+    k0 = z3.Int("k!probe")
+    key = (id(seq.root), to_bool_sexpr(mask.elem(k0)), z3.simplify(to_z3(seq.n)).sexpr(), str(seq.pos(k0)))
+    if key not in memo:
+        u = next(cx.counter)
+        sig = z3.Function(f"sigma!{u}", z3.IntSort(), z3.IntSort())
+        inv = z3.Function(f"sigma_inv!{u}", z3.IntSort(), z3.IntSort())
+        n2 = z3.Int(f"nsel!{u}")
+        n = to_z3(seq.n)
+        k, j = z3.Ints(f"k!{u} j!{u}")
+        m = lambda t: to_bool_z3(mask.elem(t))
+        cx.axiom("boolean-mask selection a[mask] keeps exactly the masked positions in order (numpy contract)", z3.And(
+            n2 >= 0, n2 <= n,
+            z3.ForAll([k], z3.Implies(z3.And(k >= 0, k < n2), z3.And(sig(k) >= 0, sig(k) < n, m(sig(k))))),
+            z3.ForAll([k, j], z3.Implies(z3.And(k >= 0, k < j, j < n2), sig(k) < sig(j))),
+            z3.ForAll([j], z3.Implies(z3.And(j >= 0, j < n, m(j)), z3.And(n2 > 0, sig(0) <= j, inv(j) >= 0, inv(j) < n2, sig(inv(j)) == j))),
+            z3.Implies(n2 > 0, z3.And(sig(0) >= 0, sig(0) < n, m(sig(0)))),
+        ))
+        memo[key] = (sig, SV(n2))
+    sig, n2 = memo[key]
+    e, p = seq.elem, seq.pos
+    return SeqArr(n2, lambda kk: e(sig(kk)), seq.root, lambda kk: p(sig(kk)))
+
+
+def to_bool_z3(x):
+    return x.t if isinstance(x, SB) else (z3.BoolVal(bool(x)) if isinstance(x, bool) else sym.to_bool(x))
+
+
+def to_bool_sexpr(x):
+    return z3.simplify(to_bool_z3(x)).sexpr()
+
+
+class ActiveArr(_Generic):
+    """boolean array indexed by point positions (np.full((n,), True) with later updates)"""
+
+    def __init__(self, name):
+        self.f = z3.Function(name, z3.IntSort(), z3.BoolSort())
+
+    def __getitem__(self, k):
+        if isinstance(k, SeqArr):
+            f, e = self.f, k.elem
+            return SeqArr(k.n, lambda t: SB(f(to_z3(e(t)))), k.root, k.pos)
+        return SB(self.f(to_z3(k)))
+
+
+class RadiusTree(_Generic):
+    """assumed contract of sklearn KDTree.query_radius(q, r, return_distance=True, sort_results=True) for ONE query point:
+    the positions of all tree points within distance <= r, sorted by ascending distance, with those distances"""
+
+    def __init__(self, name="tree"):
+        self.name = name
+        self.ids = z3.Function(f"{name}_ids", z3.IntSort(), z3.IntSort())
+        self.D = z3.Function(f"{name}_dist", z3.IntSort(), z3.RealSort())
+        self.n = SV(z3.Int(f"{name}_nfound"))
+        self.true_dist = z3.Function(f"{name}_true_dist", z3.IntSort(), z3.RealSort())  # distance of tree point p to the query
+        self.n_points = z3.Int(f"{name}_npoints")
+        self.rank = z3.Function(f"{name}_rank", z3.IntSort(), z3.IntSort())  # position in the result of a listed tree point
+
+    def query_radius(self, q, r, return_distance=False, sort_results=False, **k):
+        if not (return_distance and sort_results):
+            raise Unsupported("query_radius without distances / sorting")
+        cx = ctx()
+        rt = real(to_z3(r))
+        k_, j_, p_ = z3.Ints("k!q j!q p!q")
+        n = self.n.t
+        cx.axiom("query_radius contract: n >= 0; listed ids are distinct tree positions with D(k) = true distance <= r; ascending; every tree point within r is listed", z3.And(
+            n >= 0,
+            z3.ForAll([k_], z3.Implies(z3.And(k_ >= 0, k_ < n), z3.And(self.ids(k_) >= 0, self.ids(k_) < self.n_points, self.D(k_) == self.true_dist(self.ids(k_)), self.D(k_) <= rt, self.D(k_) >= 0))),
+            z3.ForAll([k_, j_], z3.Implies(z3.And(k_ >= 0, k_ < j_, j_ < n), z3.And(self.D(k_) <= self.D(j_), self.ids(k_) != self.ids(j_)))),
+            z3.ForAll([p_], z3.Implies(z3.And(p_ >= 0, p_ < self.n_points, self.true_dist(p_) <= rt), z3.And(self.rank(p_) >= 0, self.rank(p_) < n, self.ids(self.rank(p_)) == p_))),
+        ))
+        ids, D = self.ids, self.D
+        a = SeqArr(self.n, lambda t: SV(ids(t)))
+        b = SeqArr(self.n, lambda t: SV(D(t)), a.root)
+        return _Wrap1(a), _Wrap1(b)
+
+
+class _Wrap1:
+    """array of one result per query point: [0] gives the result of the single query"""
+
+    def __init__(self, x):
+        self.x = x
+
+    def __getitem__(self, k):
+        if k == 0:
+            return self.x
+        raise Unsupported("query_radius with several query points")
